@@ -52,3 +52,17 @@ SPECS['C05'] = {
     'thorough': [J('c05', 'asan', srcs=MREF), J('c05', 'fast', srcs=MREF)],
     'budget': {'quick': 150, 'thorough': 1200},
 }
+
+SREF = ['harness/venv.c', 'ref/ossl_ref.c', 'ref/sm2_ref.c']
+SPECS['C13'] = {
+    'level': 'exploration',
+    'technique': 'exhaustive enumeration of an operand alphabet (all 4-limb combinations over a boundary limb set, all pairs), point-pair table and Booth-window scalars on the real code; reference model = OpenSSL BN/EC_POINT',
+    'claim': 'Every exported sm2_z256 integer / mod-p / mod-n / Montgomery function agrees with OpenSSL BN on all ordered pairs (singles) of the operand alphabet inside its domain; point add/sub/dbl/neg/affine variants agree on all ordered pairs of 12 representative points (incl. infinity in both encodings, P=Q, P=-Q, non-normalised Jacobian); scalar multiplication agrees by every route for every single-window and adjacent-window scalar. Nothing is claimed for operands whose limbs are outside the alphabet.',
+    'trusted': 'OpenSSL BN and EC_POINT arithmetic (explicit SM2 parameters cross-checked against NID_sm2); conversion from Montgomery/Jacobian form done in the reference with BN',
+    'rule': 'operands: limb set L (quick 6 values -> 1296 operands, thorough 8 -> 4096) in all 4 positions + 18 named boundary values (n-2..n+1, p-2..p+1, R mod p/n, R^2, halves, typical); 12 binary functions on all ordered pairs filtered to the domain [0,p) resp. [0,n); 25 unary functions on all singles (rshift all 64 shifts, Booth digits w=5,7 reconstruct the operand, sqrt existence+value, exp with 6 exponents); points: 12x12 ordered pairs for add/sub/aliased add, affine variants, unary ops, equality table; scalars: v*2^(w*i) for all v<2^w, all window positions, w in {5,7}; adjacent-window pairs over 10 values; boundary and alphabet scalars; routes mul_generator, point_mul and pre_compute+mul_ex on 4 base points, mul_sum with 3 s values. distinct = operand tuple (pairs are distinct by construction).',
+    'bound': {'quick': 'L of 6 limbs; builds fast, amd64(if built)', 'thorough': 'L of 8 limbs; builds fast, asan, amd64'},
+    'assumptions': ['operands outside the limb alphabet are not covered (alphabet argument, not a proof)'],
+    'quick': [J('c13', 'fast', srcs=SREF), J('c13', 'amd64', srcs=SREF, deadline=100)],
+    'thorough': [J('c13', 'fast', srcs=SREF), J('c13', 'amd64', srcs=SREF), J('c13', 'asan', srcs=SREF, deadline=900)],
+    'budget': {'quick': 150, 'thorough': 1500},
+}
